@@ -1,0 +1,10 @@
+//go:build verif
+
+package osfs
+
+import "github.com/polydawn/rio/fs"
+
+// RealpathForVerif exposes the handle's path resolution to the verification harness (build tag `verif` only).
+func RealpathForVerif(afs fs.FS, path fs.RelPath, resolveLast bool) (string, error) {
+	return afs.(*osFS).realpath(path, resolveLast)
+}
